@@ -81,6 +81,8 @@ def run (j : Json) : Except String Json := do
       let k ← m.getObjValAs? String "kind"
       if k == "assign" then return some (.assign (← valOfJson (← m.getObjVal? "val")))
       else return some .delete : Except String (Option MutKind))
+  if (← j.getObjVal? "impl") == Json.str "skip" then
+    return Json.mkObj [("skip", true), ("why", "two heap cells decoded to one interned object")]
   let implObs ← obsOfJson (← j.getObjVal? "impl")
   if !(heapWF cs heap && classesWF cs) then
     return Json.mkObj [("skip", true), ("why", "heap / class table not well-formed")]
